@@ -17,17 +17,18 @@ Notation "x <- p ;; q" := (bind p (fun x => q)) (at level 61, p at next level, r
 
 Definition perform (e : eff) : prog ans := Do e (fun a => Ret a).
 
-(* run a tree against a recorded list of answers, collecting the effects performed.
-   Returns None when the answers run out. *)
-Fixpoint run {R} (p : prog R) (answers : list ans) : option (R * list (eff * ans)) :=
+(* run a tree against a list of environment answers: result, the (effect, answer) pairs performed and
+   the answers left over; None when the answers run out.  Theorems quantify over ALL answer lists,
+   i.e. over every behaviour of store, provider, key source and generator, faults included. *)
+Fixpoint run {R} (p : prog R) (answers : list ans) : option (R * list (eff * ans) * list ans) :=
   match p with
-  | Ret r => Some (r, [])
+  | Ret r => Some (r, [], answers)
   | Do e k =>
       match answers with
       | [] => None
       | a :: rest =>
           match run (k a) rest with
-          | Some (r, tr) => Some (r, (e, a) :: tr)
+          | Some (r, tr, rest') => Some (r, (e, a) :: tr, rest')
           | None => None
           end
       end
